@@ -8,6 +8,9 @@
    The marker grammar (MText.p_marker) is used as a black box: the marker text is any text the stand-alone marker parser accepts.
 
    Known gap D7 (kept as a finding, excluded by the hypotheses rq_no_d7 / rq_no_gap): a "===" clause directly followed by a comma.
+   Round 5 (second half of this file): the str round trip holds for EVERY constructed requirement (theorem 7', no rq_no_gap); D7 is
+   characterised exactly (theorem 13: decomposition under rq_d7_ok, rejection on the whole complementary class); theorem 2' states the
+   decomposition on the grammars (marker grammar RList, PEP 440 clause grammar wf_spelling); 3' links the clause set to SetsModel.
    The marker side of the str round trip (hypothesis rq_marker_rt of C08_str_roundtrip) is the round-trip clause of C09; it is discharged
    in C08_str_roundtrip_all by the marker domain's theorem MkRoundP.parsed_marker_roundtrip. *)
 From Coq Require Import List Arith NArith Bool Lia.
@@ -17,6 +20,9 @@ Require Names.
 Require Import VParse SpecParse SpecSound SpecContains.
 Require Import VComplete VTop VTop2.
 Require Import ReqModel ReqSpec ReqScanP ReqTokP ReqListP ReqMarkP ReqParseP ReqSetP ReqTopP ReqEqP ReqSoundP ReqRoundP ReqPep440P ReqRoundFullP.
+Require Import MkLayoutP MkLexP SetsModel Sorted.
+Require Import ReqCanonP ReqSetsLinkP ReqClauseP ReqStrFormP ReqGrammarP ReqExactP ReqMarkerEqP.
+Require MkEval.
 Open Scope N_scope.
 
 (* 1. however whitespace is laid out, the grammar recovers name, extras, the text of exactly the clause list, URL and the marker as the
@@ -159,6 +165,133 @@ Theorem C08_str_deterministic a b :
   q_url a = q_url b -> q_marker a = q_marker b -> req_str a = req_str b.
 Proof. exact (req_str_deterministic a b). Qed.
 Print Assumptions C08_str_deterministic.
+
+(* ================================================================ round 5 (audit C08): the gaps closed =========================== *)
+
+(* 7'. str(r) of EVERY constructed requirement parses back to an equal requirement with the same string - no D7 hypothesis
+       (rq_no_gap dropped: "a>=1, ===x", "a===", "a===,>=1", "a >=1,=== x ,<2" are all covered) *)
+Theorem C08_str_roundtrip_every src r : Requirement src = RqOk r ->
+  exists r', Requirement (req_str r) = RqOk r' /\ req_eq r r' = true /\ req_str r' = req_str r.
+Proof. exact (str_roundtrip_nogap src r). Qed.
+Print Assumptions C08_str_roundtrip_every.
+
+(* 2'. the decomposition theorem on the GRAMMARS: the marker text is generated by the marker grammar (RList of C07, any blank layout),
+       every clause text by the PEP 440 surface grammar (rq_pep440_clause: VTop.wf_spelling under an operator that admits the form,
+       a prefix match, or "===" text) - no parser appears in the hypotheses *)
+Theorem C08_requirement_render_pep508 sp m : rq_wf_g sp m -> rq_lits_ok m ->
+  Requirement (rq_render sp) =
+  RqOk {| q_name := rs_name sp; q_extras := rq_sp_extras sp; q_specs := map rq_clause_spec (rq_sp_clauses sp);
+          q_url := rq_opt_url (rq_sp_url sp); q_marker := option_map norm_l m |}.
+Proof. exact (Requirement_render_pep508 sp m). Qed.
+Print Assumptions C08_requirement_render_pep508.
+(* ... the clause hypothesis of theorems 1-3 IS that grammar *)
+Theorem C08_valid_clause_is_grammar o ws x :
+  (exists c, rq_wf_clause c /\ c_op c = o /\ c_ws c = ws /\ r_body (c_body c) = x) <-> rq_pep440_clause o ws x.
+Proof. exact (wf_clause_grammar o ws x). Qed.
+Print Assumptions C08_valid_clause_is_grammar.
+(* ... every PEP 440 spelling (any derivation tree) under an admitting operator is a valid clause: the scanner's own tree keeps the
+   release part and the local label, so "admits" is preserved *)
+Theorem C08_grammar_version_clause o ws vs : wf_spelling vs -> ws_l vs = [] -> ws_r vs = [] -> forallb is_ws ws = true -> admits o vs ->
+  exists c, rq_wf_clause c /\ c_op c = o /\ c_ws c = ws /\ r_body (c_body c) = render vs.
+Proof. exact (grammar_version_clause o ws vs). Qed.
+Print Assumptions C08_grammar_version_clause.
+(* ... and the marker hypothesis of theorems 1-2 follows from the marker grammar *)
+Theorem C08_marker_grammar_parses m t g0 g3 : RList m t -> is_ws_str g0 = true -> is_ws_str g3 = true ->
+  MText.parse_marker (g0 ++ t ++ g3) = Some m.
+Proof. exact (layout_parse_marker m t g0 g3). Qed.
+Print Assumptions C08_marker_grammar_parses.
+
+(* 3'. the SpecifierSet of a requirement IS the Sets domain's SpecifierSet (C05/C10): same acceptance, same members, same str() *)
+Theorem C08_specset_is_SpecifierSet t l : rq_specset t = Some l ->
+  exists S, SpecifierSet t None = Some S /\ map m_sp (ms S) = rq_dedup [] l /\ set_str S = rq_set_str l.
+Proof. exact (specset_exists_SpecifierSet t l). Qed.
+Print Assumptions C08_specset_is_SpecifierSet.
+Theorem C08_specset_rejects_alike t p : rq_specset t = None <-> SpecifierSet t p = None.
+Proof. exact (specset_none_iff t p). Qed.
+Print Assumptions C08_specset_rejects_alike.
+Theorem C08_ckey_is_specifier_eq a b : sp_eqb a b = true <-> rq_ckey a = rq_ckey b.
+Proof. exact (ckey_sp_eqb a b). Qed.
+Print Assumptions C08_ckey_is_specifier_eq.
+Theorem C08_requirement_holds_SpecifierSet src r : Requirement src = RqOk r ->
+  exists t, SpecifierSet t None = Some (rq_sset (q_specs r)) /\ set_str (rq_sset (q_specs r)) = rq_set_str (q_specs r).
+Proof. exact (Requirement_SpecifierSet src r). Qed.
+Print Assumptions C08_requirement_holds_SpecifierSet.
+(* equal requirements hold equal specifier sets, which contain / filter / report prereleases alike *)
+Theorem C08_equal_requirements_sets_alike sa sb a b : Requirement sa = RqOk a -> Requirement sb = RqOk b -> req_eq a b = true ->
+  let A := rq_sset (q_specs a) in let B := rq_sset (q_specs b) in
+  set_eqb A B = true /\ set_str A = rq_set_str (q_specs a) /\ set_str B = rq_set_str (q_specs b) /\
+  (forall arg inst item, set_contains A arg inst item = set_contains B arg inst item) /\
+  (forall arg texts, set_filter A arg texts = set_filter B arg texts) /\ set_pre A = set_pre B.
+Proof. exact (equal_requirements_sets_alike sa sb a b). Qed.
+Print Assumptions C08_equal_requirements_sets_alike.
+
+(* ... and markers that evaluate alike in every environment (their strings are equal, and the string determines the evaluation) *)
+Theorem C08_equal_requirements_markers_alike sa sb a b : Requirement sa = RqOk a -> Requirement sb = RqOk b -> req_eq a b = true ->
+  match q_marker a, q_marker b with
+  | Some ma, Some mb => forall defaults ov, MkEval.evaluate ma defaults ov = MkEval.evaluate mb defaults ov
+  | None, None => True
+  | _, _ => False
+  end.
+Proof. exact (equal_requirements_markers_alike sa sb a b). Qed.
+Print Assumptions C08_equal_requirements_markers_alike.
+
+(* 6'. a marker after a URL needs separating whitespace - for EVERY layout of the requirement before it (blanks, extras):
+       without whitespace the ";x" (x free of blanks) is part of the URL ... *)
+Theorem C08_url_marker_needs_ws_any sp x : rq_wf sp None -> rq_is_url sp -> rs_w3 sp = [] -> forallb rq_not_blank x = true ->
+  rq_parse (rq_render sp ++ 59 :: x) =
+  Some {| pr_name := rs_name sp; pr_url := rq_sp_url sp ++ 59 :: x; pr_extras := rq_sp_extras sp; pr_spec := []; pr_marker := None |}.
+Proof. exact (url_marker_needs_ws_any sp x). Qed.
+Print Assumptions C08_url_marker_needs_ws_any.
+(* ... and when a blank follows inside the would-be marker ("a @ u; os_name=='a'") the requirement is rejected *)
+Theorem C08_url_marker_blank_inside_rejected sp wu u x1 w c y : rq_wf_head sp -> rq_blank wu = true -> u <> [] -> forallb rq_not_blank u = true ->
+  forallb rq_not_blank x1 = true -> w <> [] -> rq_blank w = true -> is_wsb c = false -> c <> 59 -> (c = 10 -> y <> []) ->
+  rq_parse (rq_head_text sp ++ 64 :: wu ++ u ++ 59 :: x1 ++ w ++ c :: y) = None.
+Proof. exact (url_marker_blank_inside_rejected sp wu u x1 w c y). Qed.
+Print Assumptions C08_url_marker_blank_inside_rejected.
+
+(* 11'. the form of str(r): name, "[" extras "]" strictly sorted (code-point order, no duplicates, exactly the set of extras), the
+        clause strings strictly sorted (one string per distinct clause: the first one supplied, cf. D33), "@ url", "; marker" *)
+Theorem C08_str_form src r : Requirement src = RqOk r ->
+  req_str r = q_name r ++ rq_extras_text (rq_extras_sorted r) ++ rq_join [44] (rq_canon_clauses r) ++ rq_url_text r ++ rq_marker_text r /\
+  StronglySorted str_lt (rq_extras_sorted r) /\ (forall e, In e (rq_extras_sorted r) <-> In e (q_extras r)) /\
+  StronglySorted str_lt (rq_canon_clauses r) /\
+  (forall s, In s (rq_canon_clauses r) -> exists sp, In sp (q_specs r) /\ s = spec_str sp) /\
+  (forall sp, In sp (q_specs r) -> exists sp', In sp' (q_specs r) /\ rq_ckey sp' = rq_ckey sp /\ In (spec_str sp') (rq_canon_clauses r)).
+Proof. exact (str_form_sorted src r). Qed.
+Print Assumptions C08_str_form.
+Theorem C08_extras_sorted r :
+  StronglySorted (fun a b => Py.str_cmp a b = Lt) (rq_extras_sorted r) /\ NoDup (rq_extras_sorted r) /\ forall e, In e (rq_extras_sorted r) <-> In e (q_extras r).
+Proof. exact (extras_sorted_strict r). Qed.
+Print Assumptions C08_extras_sorted.
+
+(* 12. (C12, requirement side) a version clause inside a requirement is accepted iff Specifier accepts it, and is read as that
+       Specifier: for a clause text starting with an operator character, without surrounding whitespace, "," and ";" *)
+Theorem C08_clause_in_requirement name cl sp : rq_valid_ident name = true -> hd_is rq_op_start cl = true -> rq_strip cl = cl ->
+  rq_no_comma cl = true -> rq_no_semi cl = true ->
+  (Specifier cl = Some sp <-> exists r, Requirement (name ++ cl) = RqOk r /\ q_specs r = [sp]).
+Proof. exact (clause_in_requirement name cl sp). Qed.
+Print Assumptions C08_clause_in_requirement.
+
+(* 13. the known gap D7, exactly.  A "===" token directly followed by the comma swallows the following clauses up to the next blank,
+       ")" , ";" or the end; the requirement is still decomposed correctly iff every swallowed clause is spelled ",clause" with no blank
+       after the comma and no whitespace after the operator (rq_chain_okb false items = true, implied by the old rq_no_d7) ... *)
+Theorem C08_requirement_render_exact sp m : rq_wf_x sp m -> rq_lits_ok m ->
+  Requirement (rq_render sp) =
+  RqOk {| q_name := rs_name sp; q_extras := rq_sp_extras sp; q_specs := map rq_clause_spec (rq_sp_clauses sp);
+          q_url := rq_opt_url (rq_sp_url sp); q_marker := option_map norm_l m |}.
+Proof. exact (Requirement_render_x sp m). Qed.
+Print Assumptions C08_requirement_render_exact.
+Theorem C08_old_condition_implies_exact items : rq_no_d7 items -> rq_d7_ok items.
+Proof. exact (no_d7_chain_ok items). Qed.
+Print Assumptions C08_old_condition_implies_exact.
+(* ... and otherwise it is REJECTED, on the whole class (every other hypothesis of the decomposition theorem in place) *)
+Theorem C08_D7_rejected sp : rq_wf_d7 sp -> Requirement (rq_render sp) = RqInvalid.
+Proof. exact (d7_rejected sp). Qed.
+Print Assumptions C08_D7_rejected.
+
+(* closed boolean non-vacuity checks of the new theorems (each evaluates model functions on concrete inputs) *)
+Example C08_round5_checks : nogap_check = true /\ link_check = true /\ cir_check = true /\ sf_check = true /\ gr_check = true /\ x_check = true.
+Proof. repeat split; vm_compute; reflexivity. Qed.
 
 (* ---- non-vacuity ---- *)
 Definition T (s : list N) := s.
